@@ -12,7 +12,7 @@
               machinery; for [CIndep] the sub-tree under the second use of a grouping is the same
               with and without the refines/augments of the first use. *)
 From Coq Require Import List Bool ZArith Strings.Byte.
-From YV Require Import Base.Verdict Schemac.Ast Schemac.Expand.
+From YV Require Import Base.Verdict Schemac.Ast Schemac.Expand Schemac.Refactor.
 Import ListNotations.
 
 Inductive obs := ObsOk (t : list enode) | ObsErr | ObsPanic.
@@ -31,9 +31,11 @@ Definition obs_eqb (x y : obs) : bool :=
   | _, _ => false
   end.
 
+(** the model's tree must also satisfy the invariant the refactoring theorems assume of expanded
+    trees (Refactor.ewf_list: unique sibling names, choice members are cases) *)
 Definition model_obs_eqb (m : outcome (list enode)) (o : obs) : bool :=
   match m, o with
-  | Ok s, ObsOk t => trees_eqb s t
+  | Ok s, ObsOk t => trees_eqb s t && ewf_list false [] s
   | Err, ObsErr => true
   | _, _ => false
   end.
